@@ -6,8 +6,8 @@ What is proved about the code's own logic, for every number of parameters `n`:
 * `box_bounds_rows`   row `i` of `np.reshape(np.append(lb, ub), (n, 2), 'F')` is `(lb[i], ub[i])`;
 * `fit_contract_partial`  if the optimiser returns a point of the box it was handed, with objective not above the
   start's, then `fit(x, lb, ub)` returns a point with `lb ≤ r ≤ ub` and `cost r ≤ cost x`;
-* `fit_at_truth_partial`  if moreover the optimiser returns its start whenever the gradient it is handed vanishes
-  there (L-BFGS-B: projected-gradient test at iteration 0), `fit θ* = θ*` on noise-free data
+* `fit_at_truth_partial`  if moreover the optimiser returns its start whenever the gradient it is handed is below
+  `pgtol` there (L-BFGS-B: projected-gradient test at iteration 0), `fit θ* = θ*` on noise-free data
   (`grad_zero_at_truth`: residual 0 ⇒ `diff_loss` 0 ⇒ `sens_to_grad` 0).
 * `box_bounds_C_counterexample`  with C order instead of 'F' the rows are NOT the pairs (the mutation).
 
@@ -20,6 +20,7 @@ import Mathlib.Tactic.Ring
 import Mathlib.Tactic.Linarith
 import Mathlib.Tactic.NormNum
 import Mathlib.Algebra.Order.Ring.Rat
+import Mathlib.Algebra.Order.Ring.Abs
 
 set_option linter.unusedSimpArgs false
 set_option linter.unusedVariables false
@@ -77,11 +78,12 @@ structure BoxDescent (m : Minimize (List Rat)) : Prop where
   descent : ∀ (f : List Rat → Rat) (g : List Rat → List Rat) (x0 : List Rat) (b : List (List (Option Rat))),
     InBox b x0 → f (m f g x0 b .lbfgsb) ≤ f x0
 
-/-- ASSUMED of scipy's L-BFGS-B: if the gradient it is handed vanishes at the start, it returns the start
-(the projected-gradient test `‖proj g‖∞ ≤ pgtol` holds before the first iteration). -/
-def StopsAtStationary (m : Minimize (List Rat)) : Prop :=
+/-- ASSUMED of scipy's L-BFGS-B: if every component of the gradient it is handed at the start is at most `pgtol`
+in absolute value (default 1e-5), it returns the start (the projected-gradient test `‖proj g‖∞ ≤ pgtol` holds before the
+first iteration). -/
+def StopsAtStationary (pgtol : Rat) (m : Minimize (List Rat)) : Prop :=
   ∀ (f : List Rat → Rat) (g : List Rat → List Rat) (x0 : List Rat) (b : List (List (Option Rat))),
-    (∀ v ∈ g x0, v = 0) → m f g x0 b .lbfgsb = x0
+    (∀ v ∈ g x0, |v| ≤ pgtol) → m f g x0 b .lbfgsb = x0
 
 theorem inBox_boxBounds_iff (lb ub : List (Option Rat)) (h : ub.length = lb.length) (x : List Rat) :
     InBox (boxBounds lb ub) x ↔ Within lb ub x := by
@@ -150,7 +152,7 @@ theorem squareDiffLoss_zero_at_truth (y w : List Rat) : ∀ d ∈ squareDiffLoss
         · exact ih u p hp (List.of_mem_zip hp)
   rw [h1]; ring
 
-private theorem sum_zero_of_all_zero (l : List Rat) (h : ∀ v ∈ l, v = 0) : l.sum = 0 := by
+theorem sum_zero_of_all_zero (l : List Rat) (h : ∀ v ∈ l, v = 0) : l.sum = 0 := by
   induction l with
   | nil => rfl
   | cons a t ih =>
@@ -169,18 +171,33 @@ theorem grad_zero_at_truth (diffLoss : List Rat) (sens : List (List Rat)) (nOut 
   rw [h p.1 (List.of_mem_zip hp).1]; ring
 
 /-- **fit started at the generating parameters of noise-free data returns them** (partial: `StopsAtStationary`
-is assumed of the optimiser; `hgrad` is discharged by `grad_zero_at_truth` + `squareDiffLoss_zero_at_truth`). -/
-theorem fit_at_truth_partial (m : Minimize (List Rat)) (hs : StopsAtStationary m)
+is assumed of the optimiser; `hgrad` is discharged by `grad_zero_at_truth` + `squareDiffLoss_zero_at_truth`, see
+`fit_at_truth_of_zero_residual`). -/
+theorem fit_at_truth_partial (pgtol : Rat) (m : Minimize (List Rat)) (hs : StopsAtStationary pgtol m)
     (cost : List Rat → Rat) (sens : List Rat → List Rat)
     (θ : List Rat) (lb ub : List (Option Rat)) (hl : lb.length = θ.length) (hu : ub.length = θ.length)
-    (hgrad : ∀ v ∈ sens θ, v = 0) :
+    (hgrad : ∀ v ∈ sens θ, |v| ≤ pgtol) :
     fit m cost sens θ (some lb) (some ub) = .ok θ := by
   simp [fit, prepBounds, hl, hu, chooseMethod, hs cost sens θ _ hgrad]
+
+/-- the same with the gradient spelled out: `sens θ* = sens_to_grad(diff_loss, S)` and every `diff_loss` entry is 0
+(the model trajectory at `θ*` reproduces the data) -/
+theorem fit_at_truth_of_zero_residual (pgtol : Rat) (hp : 0 ≤ pgtol) (m : Minimize (List Rat)) (hs : StopsAtStationary pgtol m)
+    (cost : List Rat → Rat) (sens : List Rat → List Rat)
+    (θ : List Rat) (lb ub : List (Option Rat)) (hl : lb.length = θ.length) (hu : ub.length = θ.length)
+    (diffLoss : List Rat) (S : List (List Rat)) (hsens : sens θ = sensToGrad diffLoss S θ.length)
+    (hres : ∀ d ∈ diffLoss, d = 0) :
+    fit m cost sens θ (some lb) (some ub) = .ok θ := by
+  apply fit_at_truth_partial pgtol m hs cost sens θ lb ub hl hu
+  intro v hv
+  rw [hsens] at hv
+  rw [grad_zero_at_truth diffLoss S θ.length hres v hv]
+  simpa using hp
 
 /-! ### non-vacuity -/
 
 /-- the contract is satisfiable: the optimiser that returns its start -/
-example : BoxDescent (fun _ _ x0 _ _ => x0) ∧ StopsAtStationary (fun _ _ x0 _ _ => x0) :=
+example : BoxDescent (fun _ _ x0 _ _ => x0) ∧ StopsAtStationary (1 / 100000) (fun _ _ x0 _ _ => x0) :=
   ⟨⟨fun _ _ _ _ h => h, fun _ _ _ _ _ => le_refl _⟩, fun _ _ _ _ _ => rfl⟩
 
 /-- a concrete start inside a concrete (half-open) box, and the packed array the optimiser gets for it -/
